@@ -85,5 +85,28 @@ CLAIMED.update({
             "DESIGN.md 3 (C19), 9"),
 })
 
+CLAIMED.update({
+    "C09": ("proof", "every path encoder (logical, port, ANSI symbol segments, EPATH with word count, class/instance/attribute request paths, "
+            "tag request paths) is proved to produce bytes that an independent strict CIP path parser (spec/epath.py, written from CIP Vol 1 "
+            "C-1.4) decodes back to exactly the intended segments: all 32-bit values and all byte-string forms at once; tag strings are "
+            "constructed terms over symbolic names (any ASCII name up to 40 chars, odd and even lengths) and symbolic indices, for a finite set "
+            "of path shapes (levels x indices per level x size classes; listed in the evidence; larger shapes in the thorough tier); "
+            "out-of-domain segments must raise DataError", "contracts with parse-back postconditions (pyvc + z3)", "DESIGN.md 3 (C09), 9"),
+})
+
+CLAIMED.update({
+    "C11": ("proof", "build_request of every encapsulation request class and CIPDriver.send are proved to emit exactly one frame that an independent "
+            "strict parser (spec/encap.py, CIP Vol 2 ch. 2) accepts: header length field, command, session handle, zero status/options, "
+            "two-item common packet with exact item lengths, connection id and leading sequence count -- for all payloads (0..65000 bytes), "
+            "session handles, connection ids and contexts at once; message assembly is proved idempotent", "contracts with parse-back postconditions (pyvc + z3)",
+            "DESIGN.md 3 (C11), 9"),
+    "C13": ("proof", "every response class is constructed from an arbitrary byte string of any length (or None): truthiness is proved equal to "
+            "the status-word predicate of spec/encap.py for every known reply service code, every general status and every length; derived classes "
+            "(generic, read, fragmented read, write, read-modify-write, multi-service, list identity) are proved to raise nothing but library "
+            "exceptions and never to report success without both status words; error texts are proved non-empty and to name the general "
+            "status (all 255 values) and the extended status when present; multi-service demultiplexing pairs reply i with request i",
+            "contracts over symbolic byte strings (pyvc + z3); finite status tables evaluated completely", "DESIGN.md 3 (C13), 9"),
+})
+
 if __name__ == "__main__":
     main()
